@@ -137,6 +137,10 @@ def run_one(mod, case):
 def _worker(mod, tier, seed, flavour, k, nw, skip, journal, outpath, maxviol):
     agg = Agg()
     jfd = os.open(journal, os.O_WRONLY | os.O_CREAT | os.O_APPEND)
+    if not os.environ.get('VERIF_VERBOSE'):
+        # solvers print progress when a wrapper drops options (a finding of C09); keep stdout clean
+        dn = os.open(os.devnull, os.O_WRONLY)
+        os.dup2(dn, 1)
     idx = -1
     try:
         for idx, case in enumerate(mod.cases(tier, seed, flavour)):
